@@ -142,6 +142,11 @@ class Built:
                 if isinstance(t, T.StrType):
                     return "str"
                 if isinstance(t, T.EnumType):
+                    # an IntEnum member is hashed as the int it is, a str-based Enum member as a str
+                    if issubclass(t.type, int):
+                        return "int"
+                    if issubclass(t.type, str):
+                        return "str"
                     return "enum"
                 if isinstance(t, T.ObjectType):
                     return "obj"
